@@ -302,6 +302,7 @@ class Parameter(Term):
         if placeholder and idx:
             raise ValueError("Cannot provide both a placeholder and an idx")
 
+        super().__init__()
         self._placeholder = placeholder
         self._idx = idx
 
@@ -313,7 +314,7 @@ class Parameter(Term):
                 self._idx
             )
         if ctx.with_alias:
-            return format_alias_sql(sql, getattr(self, "alias", None), ctx)
+            return format_alias_sql(sql, self.alias, ctx)
         return sql
 
 
